@@ -1313,6 +1313,9 @@ extern "C"
     t->pt = *pt;
     if (tsanshim_thread_create)
       tsanshim_thread_create(self->id, t->id);
+    // Spawning is a visible operation: give the scheduler a point right after it, so that "the new thread runs
+    // before the creator's next (possibly non-instrumented, e.g. atomic) action" is an explorable preemption.
+    mcint_point("spawned");
     return 0;
   }
   int pthread_join(pthread_t pt, void **ret)
